@@ -84,6 +84,18 @@ CLAIMED = {
         "Differential oracle (stated by the property); operations run one after the other, never interleaved.",
         "5/C08",
     ),
+    "C09": (
+        "exhaustive defect catalogue at every applicable row of seed CIDs + hypothesis rewrites and defects",
+        "A 56-entry catalogue of structural defects is applied alone at every applicable row of 10 seed CIDs "
+        "(exhaustive) and of generated valid CIDs carrying meaning-preserving rewrites; each must raise "
+        "InterfaceError whose text names the defective row. Generated valid CIDs (all formats, 1-6 fields of all "
+        "types, 0-3 checks) undergo 1-5 composed meaning-preserving rewrites (comment / empty rows, trailing cells, "
+        "case, blanks, permuted properties) and must load to identical fields, checks and data format, through "
+        "Cid.read and create_cid_from_string.",
+        "Defects that only show when the CID is completed are judged by exception class only; acceptance of four "
+        "undocumented borderline declarations is neutral; DistinctCount rule texts come from a safe alphabet.",
+        "5/C09",
+    ),
     "C10": (
         "exhaustive one-cell hostile substitution + container fault enumeration + sampled pairs, exception-type oracle",
         "A pool of 79 hostile values is put into every cell of every row kind of four valid base CIDs (one per data "
